@@ -272,6 +272,64 @@ def correspond(ctx):
             if dis <= 4:
                 ctx.violation('c17:%s:%s' % (name, 'exception' if (o.startswith('reject') or m_.startswith('reject')) else 'value'),
                               'blas.%s: implementation and reference semantics differ: impl `%s` model `%s`' % (name, o[:150], m_[:150]), {'line': l, 'impl': o, 'model': m_})
+    # ---- documented default leading dimensions (independent of the translated prefix): operands that are true 2-D matrices with spare rows (a different
+    # number for each), dimensions given, every ld keyword omitted - the call must do exactly what the same call with ldX = max(1, X.size[0]) does
+    from cvxopt import blas as _blas
+    rng_l = random.Random(ctx.seed * 8191 + 171)
+    nld = 0
+    def m2(rows, cols, tc, tri=False):
+        R = max(rows, 1) + rng_l.randint(0, 2)
+        v = lambda: (float(rng_l.randint(-3, 3)) if tc == 'd' else complex(rng_l.randint(-2, 2), rng_l.randint(-2, 2)))
+        A_ = matrix([v() for _ in range(R * max(cols, 1))], (R, max(cols, 1)), tc)
+        if tri:
+            for i_ in range(min(R, max(cols, 1))): A_[i_, i_] = float(rng_l.choice([1, 2, -1, -2]))
+        return A_
+    for it in range(40 if ctx.quick() else 2000):
+        name = rng_l.choice(['gemm', 'symm', 'hemm', 'syrk', 'herk', 'syr2k', 'her2k', 'trmm', 'trsm', 'gemv', 'ger', 'symv', 'syr', 'trmv'])
+        tc = rng_l.choice('dz') if name not in ('symv', 'syr') else 'd'
+        m, n, k = rng_l.randint(1, 3), rng_l.randint(1, 3), rng_l.randint(1, 3)
+        side, uplo, tA, tB = rng_l.choice('LR'), rng_l.choice('LU'), rng_l.choice('NT'), rng_l.choice('NT')
+        al = 2.0
+        if name == 'gemm':
+            ops = [('A', m2(*((m, k) if tA == 'N' else (k, m)), tc)), ('B', m2(*((k, n) if tB == 'N' else (n, k)), tc)), ('C', m2(m, n, tc))]
+            kw = dict(transA=tA, transB=tB, m=m, n=n, k=k, alpha=al, beta=1.0)
+        elif name in ('symm', 'hemm'):
+            dA = m if side == 'L' else n
+            ops = [('A', m2(dA, dA, tc)), ('B', m2(m, n, tc)), ('C', m2(m, n, tc))]; kw = dict(side=side, uplo=uplo, m=m, n=n, alpha=al, beta=1.0)
+        elif name in ('syrk', 'herk'):
+            tr = rng_l.choice('NT' if name == 'syrk' or tc == 'd' else 'NC')
+            ops = [('A', m2(*((n, k) if tr == 'N' else (k, n)), tc)), ('C', m2(n, n, tc))]; kw = dict(uplo=uplo, trans=tr, n=n, k=k, alpha=al, beta=1.0)
+        elif name in ('syr2k', 'her2k'):
+            tr = rng_l.choice('NT' if name == 'syr2k' or tc == 'd' else 'NC')
+            sh = (n, k) if tr == 'N' else (k, n)
+            ops = [('A', m2(*sh, tc)), ('B', m2(*sh, tc)), ('C', m2(n, n, tc))]; kw = dict(uplo=uplo, trans=tr, n=n, k=k, alpha=al, beta=1.0)
+        elif name in ('trmm', 'trsm'):
+            dA = m if side == 'L' else n
+            ops = [('A', m2(dA, dA, tc, tri=True)), ('B', m2(m, n, tc))]; kw = dict(side=side, uplo=uplo, transA=tA, m=m, n=n, alpha=al)
+        elif name == 'gemv':
+            ops = [('A', m2(m, n, tc)), ('x', m2(n if tA == 'N' else m, 1, tc)), ('y', m2(m if tA == 'N' else n, 1, tc))]; kw = dict(trans=tA, m=m, n=n, alpha=al, beta=1.0)
+        elif name == 'ger':
+            ops = [('x', m2(m, 1, tc)), ('y', m2(n, 1, tc)), ('A', m2(m, n, tc))]; kw = dict(m=m, n=n, alpha=al)
+        elif name == 'symv':
+            ops = [('A', m2(n, n, tc)), ('x', m2(n, 1, tc)), ('y', m2(n, 1, tc))]; kw = dict(uplo=uplo, n=n, alpha=al, beta=1.0)
+        elif name == 'syr':
+            ops = [('x', m2(n, 1, tc)), ('A', m2(n, n, tc))]; kw = dict(uplo=uplo, n=n, alpha=al)
+        else:
+            ops = [('A', m2(n, n, tc, tri=True)), ('x', m2(n, 1, tc))]; kw = dict(uplo=uplo, trans=tA, n=n)
+        a1 = [+v for _, v in ops]; a2 = [+v for _, v in ops]
+        kw2 = dict(kw)
+        for nm_, v in ops:
+            if v.size[1] > 1 or nm_ in ('A', 'B', 'C'): kw2['ld' + nm_] = max(1, v.size[0])
+        nld += 1
+        def run_(args_, kws):
+            try: getattr(_blas, name)(*args_, **kws); return 'ok'
+            except Exception as e: return type(e).__name__
+        r1, r2 = run_(a1, kw), run_(a2, kw2)
+        if r1 != r2 or any(list(u) != list(w) for u, w in zip(a1, a2)):
+            ctx.violation('c17:default-leading-dimension:' + name, 'blas.%s(%s; operands %s) without ld keywords (%s) differs from the same call with the documented defaults %s (%s)'
+                          % (name, kw, [(nm_, v.size) for nm_, v in ops], r1, {k_: v_ for k_, v_ in kw2.items() if k_.startswith('ld')}, r2),
+                          {'routine': name, 'kw': {k_: str(v_) for k_, v_ in kw.items()}, 'sizes': {nm_: list(v.size) for nm_, v in ops}})
+    ctx.cov['default_ld_cases'] = nld
     ctx.cov.update({'evaluations': len(lines), 'distinct_nontrivial': len(set(lines)),
                     'rule': '%d calls per routine x %d routines: typecodes d/z, dimensions 0..4, random offsets, increments (negative where allowed), leading '
                             'dimensions >= minimum, every flag combination, alpha/beta given or omitted, 12%% with one corrupted integer argument; all '
